@@ -28,4 +28,34 @@ theorem ref_history (c : Cfg) (g : Glob) (dom : Nat) (P : SpecSt → RxObs → B
     · exact parseFrameSt_inv c g w st img hi him
     · exact ref_step c g w st img s dom hc hm hmac hw hi him hdom hr
 
+/-- what a history item must satisfy: a valid attribute record of station `own` with working MTU / address getters, a buffer image -/
+def ItemOk (own : List Nat) (it : Cfg × Glob × List Nat) : Prop :=
+  CfgOk it.1 ∧ it.1.failMtu = false ∧ it.1.failMac = false ∧ it.1.mac = own ∧ ImgOk it.2.2
+
+/-- the history lemma with the attributes (MTU, addresses other than the station's own, speed, names, icon, …) changing freely
+    from frame to frame -/
+theorem ref_historyV (own : List Nat) (dom : Nat) (P : SpecSt → RxObs → Bool) (Q : Cfg × Glob × List Nat → Prop)
+    (hdom : dom ≤ 1024) (hQ : ∀ it, Q it → ItemOk own it)
+    (hstep : ∀ (c : Cfg) (g : Glob) (w : World) (st : St) (img : List Nat) (s : SpecSt), Q (c, g, img) → NoFault w → St.Inv st → Ref st s →
+      P s (obsOf c g img (parseFrameSt c g w st img).fx) = true) :
+    ∀ (items : List (Cfg × Glob × List Nat)) (w : World) (st : St) (s : SpecSt), (∀ it ∈ items, Q it) → NoFault w → St.Inv st → Ref st s →
+      (specStatesDom own dom s (C05.runObsV w st items)).all (fun p => P p.1 p.2) = true := by
+  intro items
+  induction items with
+  | nil => intro _ _ _ _ _ _ _; rfl
+  | cons it rest ih =>
+    intro w st s hitems hw hi hr
+    obtain ⟨c, g, img⟩ := it
+    have hq := hitems (c, g, img) (by simp)
+    obtain ⟨hc, hm, hmac, hown, him⟩ := hQ _ hq
+    simp only [C05.runObsV, specStatesDom, List.all_cons, Bool.and_eq_true]
+    refine ⟨hstep c g w st img s hq hw hi hr, ?_⟩
+    apply ih _ _ _ (fun i hi' => hitems i (by simp [hi']))
+    · exact nf_of_sched hw (parseFrameSt_sched c g w st img)
+    · exact parseFrameSt_inv c g w st img hi him
+    · have := ref_step c g w st img s dom hc hm hmac hw hi him hdom hr
+      simp only [] at hown
+      rw [hown] at this
+      exact this
+
 end LLTD
